@@ -71,6 +71,8 @@ func checks() []check {
 			{Name: "bandwidth", Pkg: "pkg/k8s", Run: "^TestVerifC15Bandwidth$"},
 			{Name: "numa-hints", Pkg: "pkg/controller/pod-eni", Run: "^TestVerifC15Numa$"},
 			{Name: "webhook-annotations", Pkg: "pkg/controller/webhook", Run: "^TestVerifC15Webhook$"},
+			{Name: "cni-configuration", Pkg: "plugin/terway", Run: "^TestVerifC15CNI$"},
+			{Name: "configmap-documents", Pkg: "daemon", Run: "^TestVerifC15Config$"},
 			{Name: "stored-records", Pkg: "daemon", Run: "^TestVerifC15Records$", Sets: []string{"weave"}, Weave: []string{"daemon", "pkg/eni", "pkg/storage"}, Netns: true, ShardsQ: 8, ShardsT: 8},
 		}},
 		{ID: "C18", Level: "model_checking", Parts: []part{
